@@ -14,7 +14,7 @@ from mc.ref import runner as R
 from mc.ref import linalg as L
 from mc import seams
 
-RULE = ("every history of <=D calls (run_and_measure / run_batch_and_measure / get_measurement_outcome_distribution with valid and invalid "
+RULE = ("TLC cross-check: the complete state graph of an independently written TLA+ counter model is dumped and EVERY edge replayed on the real classes; every history of <=D calls (run_and_measure / run_batch_and_measure / get_measurement_outcome_distribution with valid and invalid "
         "arguments) on every runner kind: a BaseCircuitRunner mock (exact and surplus shots), SymbolicSimulator, a BaseWavefunctionSimulator "
         "subclass with the default native predicate, and MeasurementTrackingBackend around them (with/without bitstring recording). After every "
         "call: exception iff the request is invalid, execution log, counters of every layer, results (count, order, shots, widths, identity through "
@@ -259,7 +259,59 @@ def history_case(case):
         shutil.rmtree(workdir, ignore_errors=True)
 
 
-FUNCS = {"histories": history_case}
+LABEL_EVENT = {"RunOk": ["run", 1, 2], "RunBad": ["run", 1, 0], "BatchOk0": ["batch", [], 3], "BatchOk1": ["batch", [2], 2], "BatchOk2": ["batch", [1, 2], [2, 3]],
+               "BatchOk3": ["batch", [2, 0, 5], 2], "BatchBadLength": ["batch", [1, 2], [2]], "BatchBadEntry": ["batch", [1, 2], [3, 0]], "DistOk": ["dist", 2, 2], "DistBad": ["dist", 2, 0]}
+
+
+def tlc_edge_case(case):
+    """one edge of the TLC state graph of models/RunnerCounters.tla: replay a shortest path to its source on the real classes
+    (MeasurementTrackingBackend around a BaseCircuitRunner mock), take the edge's action, compare all four counters with the target state"""
+    circuits = [mk_circuit(c) for c in CIRCUITS]
+    workdir = tempfile.mkdtemp(prefix="c14t.", dir=os.environ.get("VERIF_SCRATCH", "/dev/shm" if os.path.isdir("/dev/shm") else "/var/tmp"))
+    try:
+        runner, inner, log, proxy = make_runner("track:mock", circuits, workdir)
+
+        def fire(label):
+            ev = LABEL_EVENT[label]
+            try:
+                if ev[0] == "run":
+                    runner.run_and_measure(circuits[ev[1]], ev[2])
+                elif ev[0] == "batch":
+                    runner.run_batch_and_measure([circuits[i] for i in ev[1]], ev[2])
+                else:
+                    runner.get_measurement_outcome_distribution(circuits[ev[1]], ev[2])
+                return None
+            except ValueError as e:
+                return e
+
+        def counters():
+            return {"tc": runner.n_circuits_executed, "tj": runner.n_jobs_executed, "ic": inner.n_circuits_executed, "ij": inner.n_jobs_executed}
+        for l in case["path"]:
+            fire(l)
+        if counters() != case["src"]:
+            return {"ok": False, "msg": "replaying the model path %s does not reach the model state" % case["path"], "expected": str(case["src"]), "observed": str(counters()), "sig": "tlc:path"}
+        exc = fire(case["label"])
+        if ("Bad" in case["label"]) != (exc is not None):
+            return {"ok": False, "msg": "model action %s: implementation %s" % (case["label"], "raised " + repr(exc) if exc else "accepted the request"), "sig": "tlc:validity"}
+        if counters() != case["dst"]:
+            return {"ok": False, "msg": "model edge %s from %s: counters of the real classes differ from the model's target state" % (case["label"], case["src"]), "expected": str(case["dst"]),
+                    "observed": str(counters()), "sig": "tlc:edge"}
+        # cross-check of the two reference models: the Python model must predict the same deltas as the TLA+ model
+        ev = LABEL_EVENT[case["label"]]
+        valid, _ = R.request_valid("track:mock", ev, CIRCUITS)
+        if valid:
+            dc, dj = R.inner_counter_delta("track:mock", ev, CIRCUITS)
+            td = R.tracker_counter_delta(ev)
+            if (case["dst"]["ic"] - case["src"]["ic"], case["dst"]["ij"] - case["src"]["ij"]) != (dc, dj) or (td is not None and case["dst"]["tc"] - case["src"]["tc"] != td[0]):
+                return {"ok": False, "inconclusive": "TLA+ model and Python reference model disagree on %s" % case["label"]}
+        elif case["dst"] != case["src"]:
+            return {"ok": False, "inconclusive": "TLA+ model changes counters on an invalid request %s" % case["label"]}
+        return {"ok": True, "nt": case["dst"] != case["src"], "ops": len(case["path"]) + 1, "key": jdump(case["dst"]), "out": case["label"]}
+    finally:
+        shutil.rmtree(workdir, ignore_errors=True)
+
+
+FUNCS = {"histories": history_case, "tlc_edges": tlc_edge_case}
 
 
 def menu(core=False):
@@ -311,5 +363,18 @@ def run(run):
                 for b in core:
                     for c in core:
                         cases.append({"kind": kind, "hist": [a, b, c]})
-    run.run_sections([Section("histories", cases, history_case, horizon=120, chunk=200,
-                              desc="all call histories (full menu: %d events, core: %d) on %d runner kinds" % (len(full), len(core), len(KINDS)))])
+    secs = [Section("histories", cases, history_case, horizon=120, chunk=200,
+                    desc="all call histories (full menu: %d events, core: %d) on %d runner kinds" % (len(full_all), len(core_all), len(KINDS)))]
+    from mc import tlc
+    ok, out, dot, (gen, distinct) = tlc.run_tlc()
+    if not ok:
+        run.inconclusive.append(("tlc_edges", 0, {}, "TLC did not complete without error: " + out[-400:]))
+    else:
+        nodes, edges, init = tlc.parse_dot(dot)
+        tr, reach = tlc.traces(nodes, edges, init)
+        run.notes.append("TLC: %d states generated, %d distinct, %d edges dumped, %d states reachable in the dump; every edge replayed against MeasurementTrackingBackend(BaseCircuitRunner mock)" % (
+            gen, distinct, len(edges), reach))
+        if reach != distinct or len(tr) != len(edges):
+            run.inconclusive.append(("tlc_edges", 0, {}, "dot dump incomplete: %d/%d states, %d/%d edges" % (reach, distinct, len(tr), len(edges))))
+        secs.append(Section("tlc_edges", tr, tlc_edge_case, horizon=120, desc="every edge of the TLC state graph of models/RunnerCounters.tla replayed against the implementation"))
+    run.run_sections(secs)
